@@ -367,3 +367,44 @@ Proof.
   rewrite (nth_indep _ (RVar u) (RVar 0)) by (rewrite map_length, seq_length; lia).
   change (RVar 0) with (RVar 0). rewrite map_nth, seq_nth by lia. reflexivity.
 Qed.
+
+(* ---- EmbeddedGate ------------------------------------------------------------------ *)
+(* decidable side condition: the level maps induce an injection of the gate's basis states
+   into the basis states of the larger system *)
+Definition inj_range_b (gdim n : nat) (tgt : nat -> nat) : bool :=
+  forallb (fun a => Nat.ltb (tgt a) n
+                    && forallb (fun b => implb (Nat.eqb (tgt a) (tgt b)) (Nat.eqb a b)) (seq 0 gdim))
+          (seq 0 gdim).
+Lemma inj_range_b_sound gdim n tgt : inj_range_b gdim n tgt = true ->
+  (forall a b, a < gdim -> b < gdim -> tgt a = tgt b -> a = b) /\ (forall k, k < gdim -> tgt k < n).
+Proof.
+  unfold inj_range_b. intros H. rewrite forallb_forall in H. split.
+  - intros a b Ha Hb E. specialize (H a). rewrite in_seq in H. specialize (H ltac:(lia)).
+    apply andb_prop in H. destruct H as [_ H]. rewrite forallb_forall in H.
+    specialize (H b). rewrite in_seq in H. specialize (H ltac:(lia)).
+    rewrite E, Nat.eqb_refl in H. simpl in H. apply Nat.eqb_eq in H. exact H.
+  - intros k Hk. specialize (H k). rewrite in_seq in H. specialize (H ltac:(lia)).
+    apply andb_prop in H. destruct H as [H _]. apply Nat.ltb_lt in H. exact H.
+Qed.
+
+Theorem Cembedded_unitary gdim n tgt U :
+  (forall a b, a < gdim -> b < gdim -> tgt a = tgt b -> a = b) -> (forall k, k < gdim -> tgt k < n) ->
+  Cunitary gdim U -> Cunitary n (map_matrix gdim tgt U Cid).
+Proof. intros Hi Hr HU. unfold Cunitary, Cid. eapply embedded_unitary; cinst. Qed.
+
+(* EmbeddedGate(gate, radixes, level_maps).get_unitary for concrete radixes and level maps *)
+Theorem Cembedded_gate_unitary gate_rx big_rx maps U :
+  inj_range_b (fold_right Nat.mul 1 gate_rx) (fold_right Nat.mul 1 big_rx) (emb_target gate_rx big_rx maps) = true ->
+  Cunitary (fold_right Nat.mul 1 gate_rx) U ->
+  Cunitary (fold_right Nat.mul 1 big_rx) (embedded C0 C1 gate_rx big_rx maps U).
+Proof.
+  intros H HU. destruct (inj_range_b_sound _ _ _ H) as [Hi Hr].
+  unfold embedded. apply Cembedded_unitary; auto.
+Qed.
+
+Lemma meval_embedded rho gate_rx big_rx maps U :
+  meval rho (embedded c0 c1 gate_rx big_rx maps U) = embedded C0 C1 gate_rx big_rx maps (meval rho U).
+Proof.
+  unfold embedded, meval. rewrite (hom_map_matrix _ _ (ceval rho)).
+  rewrite (hom_mid _ _ c0 c1 C0 C1 (ceval rho) (c0_sem rho) (c1_sem rho)). reflexivity.
+Qed.
